@@ -8,3 +8,6 @@ import WrglModel.Props.C03
 #print axioms Wrgl.C03_receive_order_is_the_senders
 #print axioms Wrgl.C03_diagnose_complete
 #print axioms Wrgl.C03_ingest_diagnosis_clean
+#print axioms Wrgl.C03_resolve_one_is_ingest
+#print axioms Wrgl.C03_resolve_history_independent
+#print axioms Wrgl.C03_resolve_inv
